@@ -133,8 +133,10 @@ CutAt ==
   /\ \E i \in 1..new :
        /\ \A j \in 1..i : SameKey(obs[ki[m + j]], Rec[l + j])
        /\ l + i < lim /\ Rec[l + i + 1].k \in {"crash", "cut"}
-       \* (replies the step logs right after the line have been sent by then: the driver polls between stimuli)
-       /\ LET pre == SubSeq(obs, 1, IF m + i < Len(ki) THEN ki[m + i + 1] - 1 ELSE Len(obs))
+       \* (replies the step logs right after an EVENT were sent before it was taken; after an operation's line they
+       \* are what happens once it completes, which it never does)
+       /\ LET pre == SubSeq(obs, 1, IF obs[ki[m + i]].k # "ev" THEN ki[m + i]
+                                    ELSE IF m + i < Len(ki) THEN ki[m + i + 1] - 1 ELSE Len(obs))
               last == pre[Len(pre)] IN
           IF Rec[l + i + 1].k = "crash"
             THEN /\ \E j \in (l + i + 2)..lim : Rec[j].k = "restart"
